@@ -33,46 +33,7 @@ def run(ctx):
         raise AnalysisError("W", "argument formatter not identified (method called by the sender that loops over the arguments)")
     snd = R.sender
 
-    # ---- W1 ----------------------------------------------------------------------
-    ctx.rule("W1", "who-may-call sendall/send on the socket = the command sender")
-    ctl = ast.parse("def f(self):\n    self.sock.sendall(b'x')\n").body[0]
-    if not attr_calls(ctl, "sendall"):
-        raise AnalysisError("W1", "positive control failed")
-    n = 0
-    for name, cs in R.send_sites.items():
-        for c in cs:
-            n += 1
-            if name == snd.name:
-                ctx.holds("W1", "%s: %s" % (snd.qualname, norm(c)[:60]))
-            else:
-                ctx.violation("W1", R.methods[name], "foreign-send", "bytes are written to the socket outside the command sender",
-                              node=c, witness="this write bypasses quoting and the one-command-one-reply discipline")
-    for f, c in R.foreign_send:
-        ctx.violation("W1", f, "foreign-send", "socket write outside the Client command sender", node=c)
-    ctx.need("W1", "send sites", n, 2)
-    # what the sender writes: tosend (verb + formatted args) and extra lines, each + CRLF
-    for c in R.send_sites.get(snd.name, []):
-        a = c.args[0] if c.args else None
-        if not (isinstance(a, ast.BinOp) and isinstance(a.op, ast.Add) and const_value(ctx.program, snd, a.right) == b"\r\n"):
-            ctx.violation("W1", snd, "no-crlf:%s" % norm(a), "a line is sent without the terminating CRLF: %s" % norm(c), node=c)
-    # the formatter is applied to the args
-    fcalls = self_calls(snd, fmt.name)
-    if not fcalls:
-        raise AnalysisError("W1", "sender does not call the formatter")
-    args_param = snd.params[2] if len(snd.params) > 2 else None
-    for c in fcalls:
-        if not (c.args and isinstance(c.args[0], ast.Name) and c.args[0].id == args_param):
-            ctx.violation("W1", snd, "formatter-arg", "the formatter is not applied to the sender's argument list", node=c)
-    # no other use of the args parameter reaches the wire
-    for nnode in walk_no_nested(snd.node):
-        if isinstance(nnode, ast.Name) and nnode.id == args_param and isinstance(nnode.ctx, ast.Load):
-            p = nnode._parent
-            if isinstance(p, ast.Call) and p in fcalls:
-                continue
-            if isinstance(p, (ast.If, ast.BoolOp, ast.UnaryOp, ast.Compare)):
-                continue
-            ctx.violation("W1", snd, "args-bypass-formatter", "the argument list is used outside the formatter call: %s" % norm(stmt_of(nnode))[:80],
-                          node=nnode)
+    args_param = w1(ctx, R)
 
     # ---- formatter anatomy -------------------------------------------------------
     cfg = ctx.cfg(fmt)
@@ -304,6 +265,51 @@ def run(ctx):
             else:
                 ctx.violation("W5", f, "dynamic-verb", "a non-constant command name is sent raw: %s" % norm(c)[:70], node=c)
     ctx.extra["sender_sites"] = len(sites)
+
+
+def w1(ctx, R):
+    fmt, snd = R.formatter, R.sender
+    # ---- W1 ----------------------------------------------------------------------
+    ctx.rule("W1", "who-may-call sendall/send on the socket = the command sender")
+    ctl = ast.parse("def f(self):\n    self.sock.sendall(b'x')\n").body[0]
+    if not attr_calls(ctl, "sendall"):
+        raise AnalysisError("W1", "positive control failed")
+    n = 0
+    for name, cs in R.send_sites.items():
+        for c in cs:
+            n += 1
+            if name == snd.name:
+                ctx.holds("W1", "%s: %s" % (snd.qualname, norm(c)[:60]))
+            else:
+                ctx.violation("W1", R.methods[name], "foreign-send", "bytes are written to the socket outside the command sender",
+                              node=c, witness="this write bypasses quoting and the one-command-one-reply discipline")
+    for f, c in R.foreign_send:
+        ctx.violation("W1", f, "foreign-send", "socket write outside the Client command sender", node=c)
+    ctx.need("W1", "send sites", n, 2)
+    # what the sender writes: tosend (verb + formatted args) and extra lines, each + CRLF
+    for c in R.send_sites.get(snd.name, []):
+        a = c.args[0] if c.args else None
+        if not (isinstance(a, ast.BinOp) and isinstance(a.op, ast.Add) and const_value(ctx.program, snd, a.right) == b"\r\n"):
+            ctx.violation("W1", snd, "no-crlf:%s" % norm(a), "a line is sent without the terminating CRLF: %s" % norm(c), node=c)
+    # the formatter is applied to the args
+    fcalls = self_calls(snd, fmt.name)
+    if not fcalls:
+        raise AnalysisError("W1", "sender does not call the formatter")
+    args_param = snd.params[2] if len(snd.params) > 2 else None
+    for c in fcalls:
+        if not (c.args and isinstance(c.args[0], ast.Name) and c.args[0].id == args_param):
+            ctx.violation("W1", snd, "formatter-arg", "the formatter is not applied to the sender's argument list", node=c)
+    # no other use of the args parameter reaches the wire
+    for nnode in walk_no_nested(snd.node):
+        if isinstance(nnode, ast.Name) and nnode.id == args_param and isinstance(nnode.ctx, ast.Load):
+            p = nnode._parent
+            if isinstance(p, ast.Call) and p in fcalls:
+                continue
+            if isinstance(p, (ast.If, ast.BoolOp, ast.UnaryOp, ast.Compare)):
+                continue
+            ctx.violation("W1", snd, "args-bypass-formatter", "the argument list is used outside the formatter call: %s" % norm(stmt_of(nnode))[:80],
+                          node=nnode)
+    return args_param
 
 
 def flatten_add(e):
